@@ -1,5 +1,6 @@
 import ChmpyVerif.Model.Proto
 import ChmpyVerif.Gen.CrystalIO
+import ChmpyVerif.Props.C10Sfac
 open ChmpyVerif ChmpyVerif.MolIO ChmpyVerif.PyStr ChmpyVerif.Gen
 
 def nm (s : String) : List Nat := s.toList.map Char.toNat
@@ -26,6 +27,18 @@ def step (line : String) : String :=
     let line := strip (decodeArg l)
     let k := (line.take 4).map toUpperA
     if k = nm "END" then "END" else if shelxKeys.contains k then "KEY " ++ enc k else "ATOM"
+  | "sfac" :: zs =>
+    -- element bookkeeping of a .res file: SFAC list, per-atom index, element read back from the index
+    match zs.mapM String.toNat? with
+    | some zs =>
+      if zs.all (· < 119) then
+        let sf := Props.C10.sfacOf 119 zs
+        let idx := Props.C10.atomSfac sf zs
+        let back := idx.map fun i => (Props.C10.readElement sf i).getD 0
+        let shw (l : List Nat) : String := ",".intercalate (l.map toString)
+        shw sf ++ "|" ++ shw idx ++ "|" ++ shw back
+      else "bad-op"
+    | none => "bad-op"
   | _ => "bad-op"
 
 def main : IO Unit := Proto.run step
